@@ -101,6 +101,9 @@ class Linked:
         self.names = {"F": {}, "G": {}, "L": {}}   # key -> name ; (function key, local index) -> name
         self.customs = []                          # [name, bytes] in order (name section excluded)
         self.start = None                          # key of the start function
+        self.types = None                          # [(params, results)] by type index (C13 only)
+        self.type_groups = None                    # [(explicit, n)]
+        self.import_sig = {}                       # import name -> (params, results) of the type it refers to
 
 
 def link_decoded(d):
@@ -137,6 +140,11 @@ def link_decoded(d):
         L.tables.append({"init": t["init"]})
     L.customs = [[c[0], list(c[1])] for c in d.get("customs", [])]
     L.start = d.get("start")
+    L.types = [((tuple(t["params"]), tuple(t["results"])) if t else None) for t in d.get("types", [])]
+    L.type_groups = [tuple(g) for g in d.get("type_groups", [])]
+    for imp in d["imports"]:
+        if imp["kind"] == "func" and imp.get("type") is not None and imp["type"] < len(L.types):
+            L.import_sig[imp["name"]] = L.types[imp["type"]]
     nm = d.get("names") or {}
     for i, n in nm.get("funcs", []): L.names["F"][i] = n
     for i, n in nm.get("globals", []): L.names["G"][i] = n
@@ -189,6 +197,14 @@ class RefModel:
         for t in base["tables"]:
             L.tables.append({"init": self.base_toks(t["init"]) if t["init"] else None})
         L.start = self.base_key["F"][base["start"]] if base.get("start") is not None else None
+        L.types = [((), ("i32",)), ((), ())]
+        L.type_groups = [(False, 1), (False, 1)]
+        if base.get("extra_types"):
+            L.types += [((), ("i32",)), (("i32",), ()), (("i64",), ("i64",))]
+            L.type_groups += [(False, 1), (True, 2)]
+        for i in base["imports"]:
+            if i["kind"] == "func":
+                L.import_sig[i["name"]] = ((), ("i32",))
         cs = base.get("customs") or {}
         L.customs = [[c[0], list(c[1])] for part in ("early", "mid", "late") for c in cs.get(part, [])]
         nm = base.get("names") or {}
@@ -233,9 +249,17 @@ class RefModel:
                 self.delete("G", self.ref(s["id"], "G"))
             elif op == "mod_global_init":
                 L.G[self.ref(s["id"], "G")]["init"] = self.toks(s["init"])
+            elif op == "add_typed_import_func":
+                sig = (tuple(s["params"]), tuple(s["results"]))
+                self.need_type(sig)
+                lab = "F:r%d" % n; L.F[lab] = {"import": s["name"]}; L.order["F"].append(lab); L.imports.append(("func", s["name"]))
+                L.import_sig[s["name"]] = sig
             elif op == "add_import_func":
+                self.need_type(((), ("i32",)))
+                L.import_sig[s["name"]] = ((), ("i32",))
                 lab = "F:r%d" % n; L.F[lab] = {"import": s["name"]}; L.order["F"].append(lab); L.imports.append(("func", s["name"]))
             elif op == "add_local_func":
+                self.need_type((tuple(s.get("params", [])), ("i32",)))
                 lab = "F:r%d" % n
                 L.F[lab] = {"body": self.toks(s["body"]) + [["end"]], "locals": tuple(s.get("locals", [])), "sig": (tuple(s.get("params", [])), ("i32",))}
                 L.order["F"].append(lab)
@@ -297,6 +321,12 @@ class RefModel:
                 raise ValueError(op)
             self.results.append(lab)
 
+    def need_type(self, sig):
+        """an added type is deduplicated against every existing type, else appended in a group of its own"""
+        if sig not in self.L.types:
+            self.L.types.append(sig)
+            self.L.type_groups.append((False, 1))
+
     def delete(self, k, lab):
         tab = getattr(self.L, k)
         ent = tab[lab]
@@ -305,6 +335,7 @@ class RefModel:
         if "import" in ent:
             kind = {"G": "global", "F": "func", "M": "memory"}[k]
             self.L.imports.remove((kind, ent["import"]))
+            self.L.import_sig.pop(ent["import"], None)
         self.deleted.add(lab)
 
     def finish(self):
@@ -432,10 +463,17 @@ class Sem:
             raise Unsupported("expression leaves %d values" % len(st))
         return st[0]
 
-    def observables(self, names=False, builder=False):
+    def observables(self, names=False, builder=False, types=False):
         """-> (structure: dict name -> hashable, values: dict name -> term)"""
         S, V = {}, {}
         L = self.L
+        if types:
+            # C13: the whole type section by index (existing types unchanged, added ones exact, deduplicated) and
+            # the signature of the type every function import refers to (the returned TypeID designates the type)
+            S["types"] = tuple(L.types)
+            S["type-groups"] = tuple(L.type_groups)
+            for nme, sig in L.import_sig.items():
+                S["import-type:" + nme] = sig
         if builder:
             # C12: every exported local function: signature, declared locals, instruction sequence (opcodes; the
             # entities its immediates designate are compared through the function's value), name
@@ -601,6 +639,14 @@ def menu(kind):
         creator("delete_global(unreferenced base import)", lambda k, c: {"op": "delete_global", "id": B(0)}, None)
         creator("delete_func(unreferenced base import)", lambda k, c: {"op": "delete_func", "id": B(0)}, None)
         creator("delete_memory(unreferenced base import)", lambda k, c: {"op": "delete_memory", "id": B(0)}, None)
+    if kind in ("TY",):
+        for nm_, pr_, rs_ in (("exists twice", [], ["i32"]), ("exists once", [], []), ("in the explicit rec group", ["i32"], []), ("in the explicit rec group (2nd)", ["i64"], ["i64"]),
+                              ("new", ["i32", "i64"], ["i32"]), ("new (2)", ["f32"], [])):
+            creator("add_func_type(%s) + import with the returned id" % nm_, (lambda pr_, rs_: lambda k, c: {"op": "add_typed_import_func", "name": "tif%d" % k, "params": pr_, "results": rs_})(pr_, rs_), None)
+        creator("add_local_func(existing signature)", lambda k, c: {"op": "add_local_func", "body": [["i32.const", 1200 + k]]}, "F")
+        creator("add_local_func(new signature)", lambda k, c: {"op": "add_local_func", "params": ["f64"], "body": [["i32.const", 1300 + k]]}, "F")
+        creator("delete_func(unreferenced base import)", lambda k, c: {"op": "delete_func", "id": B(0)}, None)
+        creator("add_imported_global", lambda k, c: {"op": "add_imported_global", "name": "nig%d" % k}, "G")
     if kind in ("CS",):
         creator("custom_add", lambda k, c: {"op": "custom_add", "name": "cs_new%d" % k, "bytes": [5, k]}, None)
         creator("custom_add(duplicate name)", lambda k, c: {"op": "custom_add", "name": "cs_mid", "bytes": [6, k]}, None)
@@ -692,7 +738,7 @@ def histories(kind, maxlen, observe_modes=(True, False)):
     return out
 
 
-FAMILY = {"C05": "DEL", "C06": "F", "C07": "G", "C08": "M", "C09": "DEL", "C30": "ADD", "C10": "F10", "C11": "F11", "C29": "N", "C12": "B12", "C23": "SE", "C28": "CS"}
+FAMILY = {"C05": "DEL", "C06": "F", "C07": "G", "C08": "M", "C09": "DEL", "C30": "ADD", "C10": "F10", "C11": "F11", "C29": "N", "C12": "B12", "C23": "SE", "C28": "CS", "C13": "TY"}
 
 
 def make_cases(pid, tier, seed):
@@ -713,6 +759,8 @@ def make_cases(pid, tier, seed):
     cases = []
     for i, (names, steps) in enumerate(hs):
       for bname, base in BASES:
+        if pid == "C13":
+            base = dict(base, extra_types=True)     # a duplicated type and an explicit recursion group in the type section
         steps = json.loads(json.dumps(steps))
         for st in steps:
             if st["op"] == "replace_import":
@@ -720,7 +768,8 @@ def make_cases(pid, tier, seed):
         cases.append({"kind": "hist", "id": "%s-m%05d-%s" % (pid, i, bname[0]), "base": base, "base_name": bname, "hist": steps, "names": names,
                       **({"encode_twice": True, "only_second": True} if pid == "C05" else {}),
                       **({"judge_names": True} if pid == "C29" else {}),
-                      **({"judge_builder": True} if pid == "C12" else {})})
+                      **({"judge_builder": True} if pid == "C12" else {}),
+                      **({"judge_types": True} if pid == "C13" else {})})
     if pid == "C23":
         def same_list_twice(c):
             seen = set()
@@ -772,10 +821,10 @@ def judge(case, r):
         return [("invalid-output", "the encoded module does not validate: %s" % r.get("valid_err", "")[:160], {"out": r["out"]})], None
     impl = link_decoded(r["out"])
     try:
-        Si, Vi = Sem(impl, Z3Dom()).observables(names=case.get("judge_names", False), builder=case.get("judge_builder", False))
+        Si, Vi = Sem(impl, Z3Dom()).observables(names=case.get("judge_names", False), builder=case.get("judge_builder", False), types=case.get("judge_types", False))
     except Unsupported as e:
         return [("unresolvable-reference", "the encoded module contains %s" % e, {"out": r["out"]})], None
-    Ss, Vs = Sem(spec, Z3Dom()).observables(names=case.get("judge_names", False), builder=case.get("judge_builder", False))
+    Ss, Vs = Sem(spec, Z3Dom()).observables(names=case.get("judge_names", False), builder=case.get("judge_builder", False), types=case.get("judge_types", False))
     viol = []
     for k in sorted(set(Si) | set(Ss)):
         if Si.get(k) != Ss.get(k):
@@ -793,8 +842,8 @@ def judge(case, r):
     if res == z3.sat:
         m = s.model()
         ci, cs = Sem(impl, IntDom(m)), Sem(spec, IntDom(m))
-        _, Ci = ci.observables(names=case.get("judge_names", False), builder=case.get("judge_builder", False))
-        _, Cs = cs.observables(names=case.get("judge_names", False), builder=case.get("judge_builder", False))
+        _, Ci = ci.observables(names=case.get("judge_names", False), builder=case.get("judge_builder", False), types=case.get("judge_types", False))
+        _, Cs = cs.observables(names=case.get("judge_names", False), builder=case.get("judge_builder", False), types=case.get("judge_types", False))
         bad = [k for k in keys if Ci[k] != Cs[k]]
         if not bad:
             raise Unsupported("z3 model does not reproduce under integer evaluation")
